@@ -271,6 +271,11 @@ def work(shard, rec):
             got = judge(rec, parse, lib.Color if i % 4 == 0 else None, s, name, bg_in, bg_rgb)
             rec.ev()
             rec.nontrivial((s, repr(bg_in)))
+            if name.endswith("a") and i % 4 == 0:
+                # the same translucent string over a sequence of different backgrounds (and none): each call is judged on its own
+                for bg2_in, bg2_rgb in ((None, (255, 255, 255)), gen_bg(rnd), gen_bg(rnd), (None, (255, 255, 255)), (bg_in, bg_rgb)):
+                    judge(rec, parse, lib.Color if i % 8 == 0 else None, s, name, bg2_in, bg2_rgb)
+                    rec.count("same_string_other_background")
             if i % 5 == 0 and got is not None:
                 # equivalent spellings: case, whitespace
                 inner = s.strip(" \t\n\r\f")
